@@ -109,8 +109,9 @@ def dotted_name(e: ast.AST) -> Optional[str]:
 
 
 class Model:
-    def __init__(self, repo: str = None, overlay: Dict[str, str] = None):
-        """overlay: rel path -> replacement source (used by positive controls/self-tests)."""
+    def __init__(self, repo: str = None, overlay: Dict[str, str] = None, base: "Model" = None):
+        """overlay: rel path -> replacement source (used by positive controls/self-tests);
+        base: an already loaded model of the same tree whose parsed modules are reused for files not in the overlay."""
         self.repo = repo or REPO
         self.modules: Dict[str, Module] = {}
         self.by_dotted: Dict[str, Module] = {}
@@ -126,6 +127,10 @@ class Model:
                 rel = os.path.relpath(full, self.repo)
                 if overlay and rel in overlay:
                     src = overlay[rel]
+                elif base is not None and rel in base.modules:
+                    self.modules[rel] = base.modules[rel]
+                    self.by_dotted[base.modules[rel].dotted] = base.modules[rel]
+                    continue
                 else:
                     with open(full, encoding="utf-8") as fh:
                         src = fh.read()
